@@ -92,6 +92,7 @@ type Env struct {
 	QuietLog   []string
 	Stabilized bool
 	frozen     atomic.Bool
+	stepA      atomic.Uint64 // mirror of Step for task goroutines (free mode)
 	frozenCh   chan struct{} // closed at teardown: every wait of the simulated network ends
 }
 
@@ -120,6 +121,9 @@ func (e *Env) Begin() {
 	e.C.Now = func() int64 { return int64(time.Since(e.T0)) }
 	e.C.StepFn = func() uint64 { return e.Step }
 }
+
+// StepNow returns the current scheduler step; safe from any goroutine.
+func (e *Env) StepNow() uint64 { return e.stepA.Load() }
 
 // Now returns fake time since the start of the run.
 func (e *Env) Now() time.Duration { return time.Since(e.T0) }
@@ -209,6 +213,7 @@ func (e *Env) step(done func() bool, idleFor *time.Duration) (reason string, sle
 	e.mu.Lock()
 	defer e.mu.Unlock()
 	e.Step++
+	e.stepA.Store(e.Step)
 	e.Stats.Steps++
 	simrt.SetStep(e.Step)
 	if e.OnStep != nil {
